@@ -42,9 +42,10 @@ enum Probe
 	P_DIM_CHANGE,
 	P_BUDGET_1E5,
 	P_BUDGET_1E6,
+	P_LONG_HISTORY,
 	P_NPROBES
 };
-const char* PROBE_NAMES[] = {"integrator_calls", "integrand_evaluations", "method_plain_mc", "method_vegas", "method_miser", "frontend_integrate_2d", "frontend_integrate_3d", "frontend_integrate_3d_spherical", "integrand_runs_a_nested_integration", "vegas_stratification_off_branch(2ng>=50)", "miser_call_with_mostly_flat_zero_integrand", "narrow_peak_underflows_to_zero", "history_vs_pristine_process_comparisons", "repeat_inside_history_comparisons", "accuracy_checks_on_regular_integrands", "accuracy_escalations", "ensemble_bias_tests", "constant_integrand_checks", "fault_entropy_edge_seed(0,1,2^32-1,repeat)", "history_changes_dimension_before_compared_call", "budget_1e5_or_more", "budget_1e6"};
+const char* PROBE_NAMES[] = {"integrator_calls", "integrand_evaluations", "method_plain_mc", "method_vegas", "method_miser", "frontend_integrate_2d", "frontend_integrate_3d", "frontend_integrate_3d_spherical", "integrand_runs_a_nested_integration", "vegas_stratification_off_branch(2ng>=50)", "miser_call_with_mostly_flat_zero_integrand", "narrow_peak_underflows_to_zero", "history_vs_pristine_process_comparisons", "repeat_inside_history_comparisons", "accuracy_checks_on_regular_integrands", "accuracy_escalations", "ensemble_bias_tests", "constant_integrand_checks", "fault_entropy_edge_seed(0,1,2^32-1,repeat)", "history_changes_dimension_before_compared_call", "budget_1e5_or_more", "budget_1e6", "call_number_20_or_later_in_its_process"};
 
 enum Metric
 {
@@ -587,6 +588,8 @@ struct Exec
 				run_ensemble(c);
 				continue;
 			}
+			if(k >= 19)
+				ctx.probe(P_LONG_HISTORY);
 			results[k] = run_call(c, c.seed);
 			check_single(c, results[k], true);
 			for(size_t q = 0; q < k; q++)
@@ -799,6 +802,10 @@ struct Gen
 		bool thorough = opts.tier == "thorough";
 		int ncl		  = (int) r.irange(1, 3);
 		int total	  = (int) r.irange(2, thorough ? 12 : 9);
+		// some histories are long and cheap: whatever accumulates over many integrations in one process gets its chance
+		bool long_history = r.chance(0.08);
+		if(long_history)
+			total = (int) r.irange(20, thorough ? 64 : 48);
 		// each client owns a list of requests; the scheduler interleaves them into one history
 		std::vector<std::vector<CallSpec>> lists(ncl);
 		uint32_t prev = 12345;
@@ -807,6 +814,12 @@ struct Gen
 		{
 			CallSpec c = random_call(prev);
 			prev	   = c.seed;
+			if(long_history)
+			{
+				c.ncalls = (int) r.pick(std::vector<long long>{1000, 1000, 2000, 3000});
+				if(c.family == 6)
+					c.family = 0;
+			}
 			// a client sometimes re-issues one of the earlier requests verbatim (same seed): repeat-inside-history oracle
 			if(!pool.empty() && r.chance(0.15))
 				c = pool[r.below(pool.size())];
